@@ -15,7 +15,7 @@ func init() {
 }
 
 func runC17(c *core.Check) {
-	c.Rule = "SplatConc.tla (3 goroutines, nested splat with 2 outer x 1 inner items) is model-checked exhaustively for ReadOwn/NoLeak (and must violate ReadOwn when two goroutines share a context); N behaviours from TLC simulation are forced onto real goroutines through the pre-lock hook gate; M free-running runs with seeded yields are recorded through the under-lock hooks; all recorded event sequences are validated by TLC against SplatConc (Trace_Splat.tla); 16 goroutines decode shared native/JSON/dynblock-expanded bodies concurrently; built with -race. Verdict: every concurrent result equals the result computed alone, every symbol read returns the reader's own value, no race report. Non-trivial = distinct interleaving"
+	c.Rule = "SplatConc.tla (3 goroutines, nested splat with 2 outer x 1 inner items) is model-checked exhaustively for ReadOwn/NoLeak (and must violate ReadOwn when two goroutines share a context); thorough: TLAPS proves that every read returns the own value of the reader for any number of goroutines with distinct contexts (spec/proofs/SplatConcProofs.tla, 154 obligations); N behaviours from TLC simulation are forced onto real goroutines through the pre-lock hook gate; M free-running runs with seeded yields are recorded through the under-lock hooks; all recorded event sequences are validated by TLC against SplatConc (Trace_Splat.tla); 16 goroutines decode shared native/JSON/dynblock-expanded bodies concurrently; built with -race. Verdict: every concurrent result equals the result computed alone, every symbol read returns the reader's own value, no race report. Non-trivial = distinct interleaving"
 	c.Assumes = []string{"interleavings of the lock-protected map operations; data races inside an operation are the race detector's job", "each goroutine has its own EvalContext (shared parents allowed), as the statement requires"}
 	// model-level exhaustive checks
 	st, err := core.TLCRun{Module: "MC_C17", NoDump: true, Timeout: minutes(10)}.Stream(1, func(core.State) {})
@@ -30,5 +30,15 @@ func runC17(c *core.Check) {
 		return
 	}
 	c.Extra["shared_context_config_violates_ReadOwn"] = true
+	if c.Tier == "thorough" {
+		// the bound of the model-checked configuration removed: TLAPS proof that every read returns the
+		// reader's own value for any number of goroutines with distinct contexts and any splat sizes
+		n, out, err := core.RunTLAPM("SplatConcProofs", minutes(15))
+		if err != nil {
+			c.Broken("tlapm could not check spec/proofs/SplatConcProofs.tla: %v %s", err, out)
+			return
+		}
+		c.Extra["tlaps_obligations_proved_SplatConcProofs"] = n
+	}
 	c17.Run(c)
 }
